@@ -727,14 +727,135 @@ def check_string_index(ix, rep, rule='R-EXC'):
         rep.fail(rule, f.module.rel, f.qual, 'text-index', '`%s` indexes the specification text, which may be empty: IndexError instead of RTAMTException' % ast.unparse(bad[0]), bad[0].lineno)
     else:
         rep.ok(rule, f.module.rel, f.qual, 'text-index', 'the specification text is never indexed by position', f.node.lineno)
-    # appends ';' iff the (stripped) text does not end with one
+    # the omitted final ';': decided where the lexer would see the last token, i.e. before the white space and comments it skips
+    _check_terminator(ix, rep, f)
+
+
+def _lexer_skips(ix):
+    """(set of white-space characters the lexer skips, has line comments, has block comments, line-comment terminators)"""
+    lx = G.load(ix.repo)['LtlLexer']
+    ws = set()
+    line = block = False
+    term = set()
+    for name, alts in lx.rules.items():
+        for alt in alts:
+            if not any(e.kind == 'cmd' and e.value == 'skip' for e in alt.elems):
+                continue
+            for e in alt.elems:
+                if e.kind == 'set' and not e.value.startswith('~'):
+                    body = e.value[1:-1]
+                    body = body.replace('\\t', '\t').replace('\\r', '\r').replace('\\n', '\n').replace('\\u000C', '\x0c').replace('\\f', '\x0c')
+                    ws |= set(body)
+                if e.kind == 'lit' and e.value == '//':
+                    line = True
+                if e.kind == 'lit' and e.value == '/*':
+                    block = True
+                if e.kind == 'set' and e.value.startswith('~'):
+                    body = e.value[2:-1].replace('\\r', '\r').replace('\\n', '\n')
+                    term |= set(body)
+    return ws, line, block, term
+
+
+def _check_terminator(ix, rep, f, rule='R-GRAM'):
+    import re as _re
+    ws, line, block, term = _lexer_skips(ix)
     src = ast.unparse(f.node).replace(' ', '')
-    if "endswith(';')" in src and "+=';'" in src:
-        rep.ok('R-GRAM', f.module.rel, f.qual, 'final-semicolon', "';' is appended iff the text does not already end with one", f.node.lineno)
-    elif "[-1]!=';'" in src and "+=';'" in src:
-        rep.ok('R-GRAM', f.module.rel, f.qual, 'final-semicolon', "';' is appended iff the last character is not ';'", f.node.lineno)
+    appends = [n for n in ast.walk(f.node) if (isinstance(n, ast.AugAssign) and isinstance(n.value, ast.Constant) and n.value.value == ';')
+               or (isinstance(n, ast.BinOp) and isinstance(n.op, ast.Add) and any(isinstance(x, ast.Constant) and x.value == ';' for x in ast.walk(n)))]
+    slot = 'final-semicolon'
+    if not appends:
+        rep.fail(rule, f.module.rel, f.qual, slot, "parse() never adds the omitted final ';'", f.node.lineno)
+        return
+    # which tail does the test skip?
+    regexes = []
+    for m_ in (ix.modules.values()):
+        if m_ is not f.module:
+            continue
+        for n in ast.walk(m_.tree):
+            if isinstance(n, ast.Call) and isinstance(n.func, ast.Attribute) and isinstance(n.func.value, ast.Name) and n.func.value.id == 're' \
+                    and n.args and isinstance(n.args[0], ast.Constant) and isinstance(n.args[0].value, str):
+                regexes.append((n, n.args[0].value))
+    skipped_ws = None
+    knows_line = knows_block = False
+    line_term = set()
+    how = None
+    if regexes:
+        import re._parser as sre
+        n, pat = regexes[0]
+        try:
+            tree = sre.parse(pat, _re.DOTALL)
+        except Exception as e:
+            rep.error('%s (%s): regular expression %r not parsed (%s)' % (f.where, f.qual, pat, e))
+            return
+        skipped_ws = set()
+
+        def walk(items):
+            nonlocal knows_line, knows_block
+            items = list(items)
+            lits = ''.join(chr(a) for op, a in items if str(op) == 'LITERAL')
+            if lits.startswith('//'):
+                knows_line = True
+                for op, a in items:
+                    if str(op) == 'NOT_LITERAL':
+                        line_term.add(chr(a))
+                    if str(op) in ('MAX_REPEAT', 'MIN_REPEAT'):
+                        for op2, a2 in a[2]:
+                            if str(op2) == 'IN' and a2 and str(a2[0][0]) == 'NEGATE':
+                                for op3, a3 in a2[1:]:
+                                    if str(op3) == 'LITERAL':
+                                        line_term.add(chr(a3))
+                            if str(op2) == 'NOT_LITERAL':
+                                line_term.add(chr(a2))
+            if lits.startswith('/*'):
+                knows_block = True
+            for op, a in items:
+                so = str(op)
+                if so == 'IN':
+                    if a and str(a[0][0]) == 'NEGATE':
+                        continue
+                    for op2, a2 in a:
+                        if str(op2) == 'LITERAL':
+                            skipped_ws.add(chr(a2))
+                        if str(op2) == 'CATEGORY' and 'SPACE' in str(a2) and 'NOT' not in str(a2):
+                            skipped_ws.update(' \t\r\n\x0c\x0b')
+                elif so == 'LITERAL' and chr(a) in ' \t\r\n\x0c' and len(items) == 1:
+                    skipped_ws.add(chr(a))
+                elif so == 'CATEGORY' and 'SPACE' in str(a) and 'NOT' not in str(a):
+                    skipped_ws.update(' \t\r\n\x0c\x0b')
+                elif so in ('MAX_REPEAT', 'MIN_REPEAT'):
+                    walk(a[2])
+                elif so == 'SUBPATTERN':
+                    walk(a[3])
+                elif so == 'BRANCH':
+                    for br in a[1]:
+                        walk(br)
+        walk(tree)
+        how = 'regular expression %r' % pat
+    elif '.rstrip().endswith(\';\')' in src or '.strip().endswith(\';\')' in src:
+        skipped_ws = set(' \t\r\n\x0c\x0b')
+        how = 'rstrip().endswith(";")'
+    elif "[-1]!=';'" in src:
+        skipped_ws = set()
+        how = 'last character'
     else:
-        rep.fail('R-GRAM', f.module.rel, f.qual, 'final-semicolon', "parse() does not append the omitted final ';'", f.node.lineno)
+        rep.error('%s (%s): the test for the final ";" is in no recognised form' % (f.where, f.qual))
+        return
+    missing = sorted(ws - skipped_ws)
+    probs = []
+    if missing:
+        probs.append(('white-space', 'the test (%s) does not skip %s, which the lexer skips: a final ";" followed by it is not recognised and a second one is added' % (
+            how, ', '.join(repr(c) for c in missing))))
+    if line and not knows_line:
+        probs.append(('line-comment', 'the lexer skips `// ...` comments but the test (%s) does not: `phi // c` gets its ";" appended inside the comment and is rejected, while `phi; // c` '
+                      'is accepted -- the omitted final ";" changes the result' % how))
+    if block and not knows_block:
+        probs.append(('block-comment', 'the lexer skips `/* ... */` comments but the test (%s) does not: `phi; /* c */` gets a second ";" and is rejected' % how))
+    if knows_line and term and not term <= line_term:
+        probs.append(('line-comment-end', 'a `//` comment ends at %s in the lexer but the test lets it run past %s' % (sorted(term), sorted(term - line_term))))
+    for key, text in probs:
+        rep.fail(rule, f.module.rel, f.qual, '%s:%s' % (slot, key), text, appends[0].lineno)
+    if not probs:
+        rep.ok(rule, f.module.rel, f.qual, slot, 'the final ";" is looked for before the white space and comments the lexer skips (%s)' % how, appends[0].lineno)
 
 
 # ------------------------------------------------------------------------------------------------- interval guard
